@@ -513,7 +513,8 @@ fn fuzz(cfgv: &Value, wc: WorldCfg, out: &mut impl Write) {
                             ops.push(vharness::codec::WOp::SetMax { max: cur_max + rng.random_range(0..3) });
                         } else {
                             let ver = match rng.random_range(0..4) { 0 => cur_max, 1 => cur_max + 1, 2 => cur_max.saturating_sub(1).max(1), _ => cur_max + rng.random_range(1..4) };
-                            let k = if rng.random_bool(0.5) { keys.choose(&mut rng).unwrap().clone() } else { "kh".to_string() };
+                            // keys: the honest ones, a hostile one, the empty key, keys starting with a 2- and a 4-byte character
+                            let k = match rng.random_range(0..8) { 0..=3 => keys.choose(&mut rng).unwrap().clone(), 4 => "kh".to_string(), 5 => String::new(), 6 => "état".to_string(), _ => "𝄞x".to_string() };
                             let st = rng.random_range(0..3u8);
                             ops.push(vharness::codec::WOp::KV { key: k, val: if st == 1 { String::new() } else { format!("h{ver}") }, ver, st });
                             if rng.random_bool(0.7) { cur_max = cur_max.max(ver); }
